@@ -135,6 +135,12 @@ func (in *Interp) callAPI(fr *Frame, fn *ssa.Function, args []Value) Value {
 		return nil
 	case "Note":
 		return nil
+	case "And":
+		return ts.And(args[0].(*Term), args[1].(*Term))
+	case "Or":
+		return ts.Or(args[0].(*Term), args[1].(*Term))
+	case "Implies":
+		return ts.Or(ts.Not(args[0].(*Term)), args[1].(*Term))
 	}
 	// anything else in the API package is ordinary Go: interpret it
 	if fn.Blocks == nil {
